@@ -847,6 +847,12 @@ class DistributedShampoo(torch.optim.Optimizer):
                     masked_filtered_grad_list,
                     bias_correction1,
                 )
+            elif beta3 == beta1:
+                # The search directions are modified in-place downstream, and some preconditioners
+                # (e.g., SGD grafting) return their input; never hand out the state tensors themselves.
+                masked_filtered_grad_list = tuple(
+                    filtered_grad.clone() for filtered_grad in masked_filtered_grad_list
+                )
         else:
             masked_filtered_grad_list = state_lists[MASKED_BLOCKED_GRADS]
 
